@@ -18,7 +18,7 @@ for d in sorted(glob.glob(os.path.join(V, 'seeded', '*', 'meta.json'))):
     elif 'MISSED' in sall or 'first run exit' in sall: tally['after'] += 1
     else: tally['first'] += 1
 SUMMARY = ('### 7.0 Summary\n\n%d genuine defects of the pinned tree were found by the checks and repaired in /repo (7.1).  %d seeded changes were produced in rounds '
-           '(suffix a, b, c, d; no round d for C06, C15, C20; one round-d change, a data race on the log level, could not be confirmed by the sequential confirmation script and was not kept) by sub-agents that saw only the property text (and, from round b on, a list of the earlier changes to avoid): %d were reported as VIOLATION by the '
+           '(suffix a, b, c, d; one round-d change, a data race on the log level, could not be confirmed by the sequential confirmation script and was not kept) by sub-agents that saw only the property text (and, from round b on, a list of the earlier changes to avoid): %d were reported as VIOLATION by the '
            'registered quick command at the first run, %d were missed at first and are caught since the harness or the driver was strengthened (the "checks" column says what was missing), '
            '%d cannot be decided with this technique in this image (iostream formatting inside libstdc++.so, floating point, thread interleavings) and are listed as such.  '
            'Recurring blind spots that the rounds removed: arguments aliasing the container/operand they are applied to, self-assignment, by-value and throwing user callbacks, '
